@@ -165,3 +165,35 @@ pub fn replay_special(_prop: &str, rec: &Value) -> Option<i32> {
     }
     None
 }
+
+/// Render probes: values whose rendering is long and multi-byte at every byte alignment, in every
+/// operand position of the given operators (literal and read from the data, with three kinds of
+/// neighbours). Most of these calls fail; a failure must be an orderly Err whose message can be
+/// rendered (the executor renders every error), whatever the length and alphabet of the value quoted.
+pub fn render_probes(ctx: &mut Ctx, ops: &[&str]) {
+    let vals = crate::alphabet::long_render_values();
+    let fills = [json!(1), json!([1, 2]), json!("ab")];
+    for k in ops {
+        for n in 1..=3usize {
+            if !ctx.mine() {
+                continue;
+            }
+            for p in 0..n {
+                for v in &vals {
+                    ctx.edge();
+                    let dv = json!({"v": v});
+                    for f in &fills {
+                        let mut args = vec![f.clone(); n];
+                        args[p] = v.clone();
+                        ctx.check("render-probe:L", &crate::alphabet::op(k, args.clone()), &dv);
+                        args[p] = json!({"var": "v"});
+                        ctx.check("render-probe:V", &crate::alphabet::op(k, args), &dv);
+                    }
+                    if n == 1 && !v.is_array() {
+                        ctx.check("render-probe:U", &crate::alphabet::obj1(k, v.clone()), &dv);
+                    }
+                }
+            }
+        }
+    }
+}
